@@ -149,7 +149,43 @@ def enumPrefix (base depth : Nat) (pre : List Nat) : UInt64 :=
         else hashResult h (finish s' (some ("E" ++ toString t ++ " " ++ showOut out)) [])
   go pre 0 init [] fnvInit
 
+/-! ### the region API called directly (`seg api <op>;<op>;…`)
+
+`sel:A` = `Context::change_segment(A)`, `wr:HEX` = `ActiveSegment::write`, `wat:A:HEX` = `ActiveSegment::write_at(A, …)`
+(all three of its paths: overwrite inside the buffer, overwrite + append, append at the cursor; the `assert!` on the address is
+`panic`), `cl` = `Context::close_segment`. Reply: the outcome of every op, the active region (`base:curr_addr:len:remaining` or `-`), the map. -/
+
+def apiStep (s : State) (w : List String) : Option (State × String) :=
+  match w with
+  | ["sel", a] => a.toNat?.bind fun a => if a ≤ u32Max then (let r := step s (.select a); some (r.1, showOut r.2)) else none
+  | ["wr", d] => (parseHexBytes d).map fun d => let r := step s (.append (Map.bytesOfNats d)); (r.1, showOut r.2)
+  | ["wat", a, d] =>
+    match a.toNat?, parseHexBytes d with
+    | some a, some d =>
+      match s.active with
+      | none => some (s, "inactive")
+      | some seg => let r := seg.writeAt a (Map.bytesOfNats d); some ({ s with active := some r.1 }, showOut r.2)
+    | _, _ => none
+  | ["cl"] => let r := step s .close; some (r.1, showOut r.2)
+  | _ => none
+
+def showActive : Option Active → String
+  | none => "-"
+  | some a => toHex 8 a.base ++ ":" ++ toString a.cur ++ ":" ++ toString a.buf.length ++ ":" ++ toString (a.maxLen - a.buf.length)
+
+def runApi (ops : List String) : String :=
+  let rec go : List String → State → List String → String
+    | [], s, outs => ",".intercalate outs.reverse ++ " | " ++ showActive s.active ++ " | " ++ Map.dump s.map
+    | o :: rest, s, outs => match apiStep s (o.splitOn ":") with
+      | none => "bad-op"
+      | some (s', out) =>
+        if out = "panic" then ",".intercalate (out :: outs).reverse ++ " | panic | panic"
+        else go rest s' (out :: outs)
+  go ops init []
+
 def handle : List String → String
+  | ["api", ops] => runApi ((ops.splitOn ";").filter (· ≠ ""))
+  | ["api"] => runApi []
   | ["run", ops] => runText ((ops.splitOn ";").filter (· ≠ ""))
   | ["run"] => runText []
   | ["enum", base, depth, pre] => match base.toNat?, depth.toNat?, Map.parseIdxList pre with
